@@ -63,64 +63,61 @@ Theorem restart_safe : forall cfg n sched,
 Proof. exact restart_safe_l. Qed.
 Print Assumptions restart_safe.
 
-(* A panicking callback loses only its own batch: running the callback on h changes
-   nothing but the log — h goes to [lost] instead of [executed]; container, channels,
-   counters, every thread (including the one that ran the callback, which goes on to
-   waitGroup.Done and, for the flusher, back to its loop) are as after a normal return.
-   All other tasks stay accounted for by [exactly_once]. *)
-Theorem panic_loses_own_batch_only : forall cfg s h,
-  core (callback cfg s h) = core s /\
-  (if panics cfg h
-   then lost (callback cfg s h) = lost s ++ [h] /\ executed (callback cfg s h) = executed s
-   else executed (callback cfg s h) = executed s ++ [h] /\ lost (callback cfg s h) = lost s).
-Proof. exact callback_effect. Qed.
+(* A panicking callback loses only its own batch — over whole runs: for every schedule,
+   the run with panicking callbacks and the run in which the same callbacks return
+   normally ([no_panic cfg]: same threshold and interval, no panicking task) have the
+   same core state (container, size, commander, inflight, guarded, waitGroup, barrier,
+   ticker, clock, every client's and every flusher's program counter and hand, accepted
+   tasks) — at every step, since the statement is for every schedule, hence for every
+   prefix — and the logs differ only in that exactly the batches containing a panicking
+   task are in [lost] instead of [executed], in the same order. *)
+Theorem panic_loses_own_batch_only : forall cfg n sched,
+  let s := run cfg (init n) sched in
+  let s0 := run (no_panic cfg) (init n) sched in
+  core s = core s0 /\ lost s0 = [] /\
+  executed s = filter (fun h => negb (panics cfg h)) (executed s0) /\
+  lost s = filter (panics cfg) (executed s0).
+Proof. exact panic_simulation. Qed.
 Print Assumptions panic_loses_own_batch_only.
 
-(* Wait covers earlier Adds — for the code as it is, under the explicit hypothesis
-   that, while the Wait is in progress, no task accepted before it sits in a threshold
-   batch that a producer removed from the container and the flusher has not yet entered
-   execution for (producer's hand, commander channel, flusher before enterExecution).
-   Without the hypothesis the statement is false: Pinned.wait_covers_prior_adds_refuted
-   (finding F6); requiring it only when the Wait starts is not enough either:
+(* Wait returns only after the callbacks for all tasks added before it have returned:
+   for every schedule, if client w (idle) calls Wait in state s0 and the call has returned
+   in s1, every task accepted by Add before the call — with multiplicity — has been passed
+   to a callback that returned or panicked.  No hypothesis on what other clients do
+   meanwhile (concurrent Adds, Flushes, Waits, ticks, flusher quitting and restarting).
+   For the protocol before the fix of F6 this is false: Pinned.wait_covers_prior_adds_refuted,
    Pinned.wait_start_hypothesis_insufficient. *)
 Theorem wait_covers_prior_adds : forall cfg n pre w mid,
-  patched cfg = false ->
   let s0 := run cfg (init n) pre in
   let s1 := run cfg s0 (EvCall w CWait :: mid) in
   nth_error (cl s0) w = Some CIdle ->
   no_call_of w mid ->
-  (forall j a, In a (accepted s0) ->
-     ~ In a (unentered (run cfg s0 (firstn j (EvCall w CWait :: mid))))) ->
   nth_error (cl s1) w = Some CIdle ->
   forall a, In a (accepted s0) -> In a (done_tasks s1).
-Proof. exact wait_covers_l. Qed.
+Proof. exact wait_covers_in. Qed.
 Print Assumptions wait_covers_prior_adds.
 
-(* The candidate repair (flusher: enterExecution before inflight--; Wait: after Flush,
-   wait until inflight = 0, then Guard(waitGroup.Wait)) makes the statement hold with
-   no hypothesis, over all schedules. *)
-Theorem wait_covers_prior_adds_patched : forall cfg n pre w mid,
-  patched cfg = true ->
+Theorem wait_covers_prior_adds_with_multiplicity : forall cfg n pre w mid,
   let s0 := run cfg (init n) pre in
   let s1 := run cfg s0 (EvCall w CWait :: mid) in
   nth_error (cl s0) w = Some CIdle ->
   no_call_of w mid ->
   nth_error (cl s1) w = Some CIdle ->
-  forall a, In a (accepted s0) -> In a (done_tasks s1).
-Proof. exact wait_covers_patched_l. Qed.
-Print Assumptions wait_covers_prior_adds_patched.
+  forall a, (count_occ Z.eq_dec (accepted s0) a <= count_occ Z.eq_dec (done_tasks s1) a)%nat.
+Proof. exact wait_covers_l. Qed.
+Print Assumptions wait_covers_prior_adds_with_multiplicity.
 
 (* ---- non-vacuity: concrete schedules meeting the hypotheses ---- *)
-Definition ex_cfg : config := mkCfg 2 1000 [] false.
+Definition ex_cfg : config := mkCfg 2 1000 [].
 (* Add 1 (starts the flusher), Add 2 reaches the threshold and is handed over and
    confirmed, flusher parked before the callback; Add 3 stays in the container *)
 Definition ex_pre : list ev :=
   [EvCall 0 (CAdd 1 1); EvC 0; EvB 0 false; EvCall 0 (CAdd 2 1); EvC 0; EvC 0;
-   EvB 0 false; EvB 0 false; EvC 0; EvCall 0 (CAdd 3 1); EvC 0].
+   EvB 0 false; EvB 0 false; EvB 0 false; EvC 0; EvCall 0 (CAdd 3 1); EvC 0].
 (* Wait by client 1: Flush takes [3] and runs it; the flusher's callback on [1;2]
    runs; Wait returns *)
 Definition ex_mid : list ev :=
-  [EvC 1; EvC 1; EvC 1; EvC 1; EvC 1; EvB 0 false; EvB 0 false; EvC 1].
+  [EvC 1; EvC 1; EvC 1; EvC 1; EvC 1; EvC 1; EvB 0 false; EvB 0 false; EvC 1].
 
 Example ex_wait_hypotheses :
   let s0 := run ex_cfg (init 2) ex_pre in
@@ -128,8 +125,16 @@ Example ex_wait_hypotheses :
   nth_error (cl s0) 1%nat = Some CIdle /\ accepted s0 = [1; 2; 3] /\ quiet s0 /\
   nth_error (cl s1) 1%nat = Some CIdle /\
   executed s1 = [[3]; [1; 2]] /\ places s1 = [] /\
-  forallb (fun j => match unentered (run ex_cfg s0 (firstn j (EvCall 1 CWait :: ex_mid))) with
-                    | [] => true | _ => false end) (seq 0 10) = true.
+  (* one action earlier the Wait had not returned: it was waiting for the flusher's callback *)
+  nth_error (cl (run ex_cfg s0 (EvCall 1 CWait :: removelast ex_mid))) 1%nat = Some CWWait.
+Proof. vm_compute. repeat split; reflexivity. Qed.
+
+(* the same schedule when task 2 makes its callback panic: same core state, [1;2] lost, [3] executed *)
+Example ex_panic :
+  let cfgp := mkCfg 2 1000 [2] in
+  let s := run cfgp (init 2) (ex_pre ++ EvCall 1 CWait :: ex_mid) in
+  let s0 := run (no_panic cfgp) (init 2) (ex_pre ++ EvCall 1 CWait :: ex_mid) in
+  executed s = [[3]] /\ lost s = [[1; 2]] /\ executed s0 = [[3]; [1; 2]] /\ core s = core s0.
 Proof. vm_compute. repeat split; reflexivity. Qed.
 
 (* idle quit with a pending restart: the flusher quits (guarded = false) while its
